@@ -11,7 +11,7 @@ def gen_cases(rng, tier):
     for gi in range(n):
         # counting constraints decided by several values are where an early exit can go wrong: half of the cases are focused,
         # and qualified value shapes (with a value shape that everything conforms to) are over-represented among them
-        b = EC.base_case(rng, p_deact=0.05, p_focused=0.5, tmpls=[S.tmpl_custom, S.tmpl_custom_alone, S.tmpl_custom_alone, S.tmpl_custom_alone, S.tmpl_severity, S.tmpl_nested_severity, S.tmpl_shared, S.tmpl_shared, S.tmpl_shared, S.tmpl_multi_logical, S.tmpl_multi_logical, S.tmpl_multi_logical, S.tmpl_qualified, S.tmpl_qualified,
+        b = EC.base_case(rng, p_deact=0.05, p_focused=0.5, tmpls=[S.tmpl_several_lists, S.tmpl_several_lists, S.tmpl_several_lists, S.tmpl_custom, S.tmpl_custom_alone, S.tmpl_custom_alone, S.tmpl_custom_alone, S.tmpl_severity, S.tmpl_nested_severity, S.tmpl_shared, S.tmpl_shared, S.tmpl_shared, S.tmpl_multi_logical, S.tmpl_multi_logical, S.tmpl_multi_logical, S.tmpl_qualified, S.tmpl_qualified,
                                                                   lambda r, n, l: S.tmpl_qualified(r, n, l, easy=True), lambda r, n, l: S.tmpl_qualified(r, n, l, easy=True)])
         for so in SEV:
             for ab in (False, True):
